@@ -45,13 +45,28 @@ Sub(a, b, c) == Put(c, ESub(reg[a], reg[b]), GAdd(gh[a], GNeg(gh[b])), [op |-> "
 Neg(a, c)    == Put(c, ENeg(reg[a]), GNeg(gh[a]), [op |-> "neg", a |-> a, c |-> c])
 Double(a, c) == Put(c, EDouble(reg[a]), GDbl(gh[a]), [op |-> "double", a |-> a, c |-> c])
 MulCof(a, c) == Put(c, EMulByPow2(reg[a], 3), GPow2(gh[a], 3), [op |-> "mul_by_cofactor", a |-> a, c |-> c])
+\* scalar multiplication by a scalar class (0, 1, 2, 3, l'-1, l', l'+1), computed on the REPRESENTATIONS by double-and-add over
+\* the layer-A formulas (so exceptional cases of the formulas - doubling via add, adding the identity, P + (-P) - occur
+\* inside histories); the replay maps the class to the full-size scalar of the same class (l' -> l)
+RECURSIVE EMulSmall(_, _)
+EMulSmall(e, n) == IF n = 0 THEN ExtIdentity
+                   ELSE LET h == EMulSmall(e, n \div 2)  d == EAdd(h, h) IN IF n % 2 = 1 THEN EAdd(d, e) ELSE d
+ScalarClasses == {0, 1, 2, 3, Lp - 1, Lp, Lp + 1}
+GMul(g, n) == <<(g[1] * n) % Lp, (g[2] * n) % 8>>
+Mul(a, n, c) == Put(c, EMulSmall(reg[a], n), GMul(gh[a], n), [op |-> "mul", a |-> a, n |-> n, lp |-> Lp, c |-> c])
+\* a round trip through the wire format: the same element in a fresh representation (Z = 1)
+Recode(a, c) == LET d == EDecompress(ECompress(reg[a])) IN
+                Put(c, d[2], gh[a], [op |-> "recode", a |-> a, c |-> c])
+Select(a, b, f, c) == Put(c, IF f THEN reg[b] ELSE reg[a], IF f THEN gh[b] ELSE gh[a], [op |-> "select", a |-> a, b |-> b, f |-> f, c |-> c])
 \* observations do not change the registers; they are recorded for the replay
 Eq(a, b)  == /\ hist' = Append(hist, [op |-> "eq", a |-> a, b |-> b]) /\ steps' = steps + 1 /\ UNCHANGED <<reg, gh>>
 Pred(a)   == /\ hist' = Append(hist, [op |-> "pred", a |-> a]) /\ steps' = steps + 1 /\ UNCHANGED <<reg, gh>>
 
 Next == /\ steps < MAXSTEPS
         /\ \/ \E a, b, c \in Regs : Add(a, b, c) \/ Sub(a, b, c)
-           \/ \E a, c \in Regs : Neg(a, c) \/ Double(a, c) \/ MulCof(a, c)
+           \/ \E a, c \in Regs : Neg(a, c) \/ Double(a, c) \/ MulCof(a, c) \/ Recode(a, c)
+           \/ \E a, c \in Regs, n \in ScalarClasses : Mul(a, n, c)
+           \/ \E a, b, c \in Regs, f \in BOOLEAN : Select(a, b, f, c)
            \/ \E a, b \in Regs : Eq(a, b)
            \/ \E a \in Regs : Pred(a)
 
